@@ -23,7 +23,7 @@ m = {
     "setup_cmd": "./check --setup",
     "hooks": {
         "guard": "koge29_verif",
-        "enable": "every check rsyncs /repo/src into /verif/sim/gen/src, installs /verif/sim/main_root.rs as the binary root and builds /verif/sim with RUSTFLAGS=\"--cfg koge29_verif\" (profiles release and checked=release+overflow-checks); the E2 build additionally retargets the std::net/thread/mpsc imports of socket.rs and bus.rs in that copy to the simulation facade",
+        "enable": "every check rsyncs /repo/src into /verif/sim/gen/src, installs /verif/sim/main_root.rs as the binary root and builds /verif/sim with RUSTFLAGS=\"--cfg koge29_verif\" (profiles release and checked=release+overflow-checks); the E2 build additionally retargets the `use std::` imports of socket.rs and bus.rs, and the `std::thread` paths of cpu.rs, in that copy to the simulation facade (in-memory stream, shuttle threads and channels, simulated clock)",
         "baseline_off_cmd": "cd /repo && cargo test --workspace --no-fail-fast --offline",
         "source_commits": HOOK_COMMITS,
         "add_only": True,
